@@ -212,7 +212,7 @@ func runC13(c *Ctx) {
 		// with the old config parameter
 		for _, i := range imports {
 			a := i.Common().Args
-			c.R.Check(kit.DerivesFrom(a[len(a)-1], func(v ssa.Value) bool { p, ok := v.(*ssa.Parameter); return ok && p.Name() == "oldConfig" }) || kit.DerivesFromPath(a[len(a)-1], "oldConfig"), r6, "rollbackInPlace: restores the OLD config", c.Pos(i.Pos()), "ok", "rollbackInPlace imports something other than the old config", true)
+			c.R.Check(fromParam(a[len(a)-1], argParam(fn, 2)), r6, "rollbackInPlace: restores the OLD config", c.Pos(i.Pos()), "ok", "rollbackInPlace imports something other than the old config", true)
 		}
 	}
 }
@@ -269,12 +269,7 @@ func runC16(c *Ctx) {
 		}
 		plans := kit.CallsTo(fn, plan)
 		c.Dominated(r1, name+": re-plan happens under the lock", asInstrs(plans), gLock, "pipelineLocks.Lock(desired.ID)")
-		var hashParam ssa.Value
-		for _, p := range fn.Params {
-			if p.Name() == "hash" {
-				hashParam = p
-			}
-		}
+		hashParam := argParam(fn, 2)
 		gHash := kit.NewGates().AddEdges(kit.CmpEdges(fn, func(b *ssa.BinOp) (bool, bool) {
 			if (kit.IsFieldLoad(b.X, hashF) && kit.IsVar(b.Y, hashParam)) || (kit.IsFieldLoad(b.Y, hashF) && kit.IsVar(b.X, hashParam)) {
 				switch b.Op {
@@ -313,12 +308,7 @@ func runC16(c *Ctx) {
 			c.R.Check(len(kit.CallsTo(fn, stopWait))+len(kit.CallsTo(fn, start))+len(kit.CallsTo(fn, inPlace)) == 0, r2, "ApplyPlan never stops, starts or live-swaps a pipeline", c.Pos(fn.Pos()), "ok", "the non-live ApplyPlan touches a pipeline's lifecycle", true)
 			continue
 		}
-		var allowP ssa.Value
-		for _, p := range fn.Params {
-			if p.Name() == "allowRestartOnRunning" {
-				allowP = p
-			}
-		}
+		allowP := argParam(fn, 3)
 		gAuth := kit.NewGates()
 		if allowP != nil {
 			gAuth.AddEdges(kit.CondEdges(allowP, true), "allowRestartOnRunning")
